@@ -28,6 +28,7 @@ pub struct Plan {
 
 fn plan(prop: &str, tier: Tier) -> Option<Plan> {
     let (spaces, (rule, bounds, assumptions)) = match prop {
+        "C20" => (checks::c20::spaces(tier), checks::c20::meta(tier)),
         "C01" => (checks::c01::spaces(tier), checks::c01::meta(tier)),
         "C03" => (checks::c03::spaces(tier), checks::c03::meta(tier)),
         "C04" => (checks::c04::spaces(tier), checks::c04::meta(tier)),
@@ -128,6 +129,7 @@ fn main() {
             let kind = args[2].clone();
             let f: Box<dyn Fn(&str) -> String> = match kind.as_str() {
                 "c10" => Box::new(|c| checks::c10::worker(c)),
+                "c20" => Box::new(|c| checks::c20::worker(c)),
                 _ => usage(),
             };
             isolate::worker_loop(&*f);
